@@ -893,7 +893,34 @@ func doIssues(rs *Resid, fn *ast.FuncDecl) []sideIssue {
 		if canon(send.n.(*ast.SendStmt).Value) != errVar {
 			iss(send.n, "wrong-error-sent", "a goroutine sends %s instead of the error its own function returned", rs.src(send.n.(*ast.SendStmt).Value))
 		}
-		for _, v := range lhs[:len(lhs)-1] {
+		slots := lhs[:len(lhs)-1]
+		if call.Tok == token.DEFINE {
+			// res, err := f(): the results are bound to variables of the goroutine itself; the slot is the variable of Do that
+			// res is then stored in, and that store, too, must come before the completion is signalled
+			var outer []string
+			for _, v := range slots {
+				found := ""
+				ast.Inspect(f.body, func(m ast.Node) bool {
+					as, ok := m.(*ast.AssignStmt)
+					if !ok || as.Tok != token.ASSIGN || len(as.Lhs) != 1 || len(as.Rhs) != 1 || canon(as.Rhs[0]) != v {
+						return true
+					}
+					found = canon(as.Lhs[0])
+					b2, i2 := f.blockOf(as)
+					if b2 == nil || !((b2 == sb && i2 < si) || (b2 != sb && f.g.dominates(b2, sb))) {
+						iss(send.n, "send-before-result", "a goroutine signals completion before (or without) storing its result: Do can read the result slot before it is written")
+					}
+					return true
+				})
+				if found == "" {
+					iss(call, "result-not-stored", "the result %s of the function stays in a variable of the goroutine: Do never returns it", v)
+					continue
+				}
+				outer = append(outer, found)
+			}
+			slots = outer
+		}
+		for _, v := range slots {
 			if prev, dup := results[v]; dup && prev != f {
 				iss(call, "slot-shared", "the result slot %s is written by two goroutines", v)
 			}
